@@ -144,14 +144,34 @@ func (r *SeqRun) execHistories(hs []*History, tag string) {
 		wg.Add(1)
 		go func(w int) {
 			defer wg.Done()
-			path := filepath.Join(r.Scratch, fmt.Sprintf("trace-%s-%02d.ndjson", tag, w))
+			part := 0
+			path := filepath.Join(r.Scratch, fmt.Sprintf("trace-%s-%02d-%03d.ndjson", tag, w, part))
 			tw, err := NewTraceWriter(path, r.P.KF)
 			if err != nil {
 				r.infra("trace writer: %v", err)
 				return
 			}
 			sigs := map[string]struct{}{}
+			flush := func() {
+				tw.Close()
+				r.mu.Lock()
+				r.shards = append(r.shards, path)
+				r.Events += tw.n
+				for k, v := range tw.counts {
+					r.Counts[k] += v
+				}
+				r.mu.Unlock()
+			}
 			for i := w; i < len(hs); i += workers {
+				if tw.n > 250000 { // bounded shards: TLC loads a whole trace file
+					flush()
+					part++
+					path = filepath.Join(r.Scratch, fmt.Sprintf("trace-%s-%02d-%03d.ndjson", tag, w, part))
+					if tw, err = NewTraceWriter(path, r.P.KF); err != nil {
+						r.infra("trace writer: %v", err)
+						return
+					}
+				}
 				h := hs[i]
 				dir := filepath.Join(r.Scratch, fmt.Sprintf("d-%s-%d", tag, h.ID))
 				os.MkdirAll(dir, 0o700)
@@ -185,13 +205,8 @@ func (r *SeqRun) execHistories(hs []*History, tag string) {
 				}
 				os.RemoveAll(dir)
 			}
-			tw.Close()
+			flush()
 			r.mu.Lock()
-			r.shards = append(r.shards, path)
-			r.Events += tw.n
-			for k, v := range tw.counts {
-				r.Counts[k] += v
-			}
 			for s := range sigs {
 				h := sha1.Sum([]byte(s))
 				r.Sigs[string(h[:8])] = struct{}{}
